@@ -24,6 +24,7 @@ from sim.clock import Clock, SimTimeout  # noqa: E402
 
 CHILD_WALL_S = 120          # harness safety only; never a verdict
 SHRINK_EVALS = 500
+MAX_BAD_CASES = 40          # a round stops early once this many cases violated (keeps broken trees cheap)
 MAX_REPORTED = 6            # distinct (class, site) violations minimised per round
 
 
@@ -139,7 +140,11 @@ def do_round(pid, seed, rnd, tier):
            'scheds': set(), 'probes': {}, 'hist': {}, 'violations': [], 'harness': [], 'samples': [], 'digest': None}
     seen_v = {}
     dig = []
+    bad_cases = 0
     for i, case in enumerate(cases):
+        if bad_cases >= MAX_BAD_CASES:
+            out['aborted_after'] = i      # deterministic: depends only on the outcomes so far
+            break
         res = run_forked(prop, case, hashseed)
         if 'harness_error' in res or 'harness_timeout' in res:
             out['harness'].append({'case': case, 'res': res})
@@ -159,6 +164,8 @@ def do_round(pid, seed, rnd, tier):
         dig.append([res.get('digest'), res.get('ticks', 0)])
         if i < 2 and rnd < 2:
             out['samples'].append(prop.sample(case, res))
+        if res.get('viol'):
+            bad_cases += 1
         for v in res.get('viol', ()):
             key = (v['cls'], v['site'])
             seen_v[key] = seen_v.get(key, 0) + 1
